@@ -4,6 +4,8 @@ import AcraModel.Envelope.SafeCompatSame
 import AcraModel.Crypto.ShimLaws
 import AcraModel.Envelope.TranslatorLemmas
 import AcraModel.Props.C09
+import AcraModel.Searchable.MatchLemmas
+import AcraModel.Generated.SearchMatcher
 /-!
 # C03 — any modification of a protected value is detected, never mis-decrypted
 
@@ -618,6 +620,99 @@ theorem searchable_reveal_no_panic (c : CryptoOps) (hkey : Option Bytes) (kv : K
       | err => simp
       | panic => exact absurd hd (hp _)
 
+/-! ### splices: something between the hash and the envelope
+
+`hashA ++ hashB ++ envB` (the hash of one stored value put in front of the whole of another),
+`hashA ++ junk ++ envA`, `hash ++ window bytes ++ envelope`: the column still starts with a well-formed
+search hash, but the envelope no longer follows it directly. -/
+
+open Generated.SearchMatcher in
+/-- `EnvelopeMatcher.Match` hands the WHOLE data to the envelope detector – the detector's loop visits
+every offset – and reports whether the matcher's callback (which only raises a flag and returns the
+container unchanged) was invoked: this is `Searchable.matchEnvelope`. The first call of
+`hmac.Processor.OnColumn` asks it about everything behind the extracted hash
+(`data[p.matchedHash.Length():]`) and cuts the hash off – remembering it and the raw column – exactly when
+the answer is "matched": this is the first branch of `Searchable.pOnColumn`. A shortcut in `Match` that
+answers without running the detector (e.g. "data does not *start* with a tag") changes the first list. -/
+theorem fact_matcher_whole_data :
+    matcherMatchBody = ["matcher.detector.OnColumn(context.TODO(), data)", "result := matcher.matched", "matcher.matched = false", "return result"] ∧
+    matcherNewBody = ["envelopeDetector := NewEnvelopeDetector()", "var detector base.DecryptionSubscriber = envelopeDetector", "if base.OldContainerDetectionOn { detector = NewOldContainerDetectorWrapper(envelopeDetector) }", "matcher := &EnvelopeMatcher{detector: detector}", "envelopeDetector.AddCallback(matcher)", "return matcher"] ∧
+    matcherCallbackBody = ["matcher.matched = true", "return container, nil"] ∧
+    processorMatchArgs = ["data[p.matchedHash.Length():]"] ∧
+    processorFirstCall = ["ctx = context.WithValue(ctx, onColumnCalledCtxKey{}, true)", "p.hashData, p.matchedHash, p.rawData = nil, nil, nil", "p.matchedHash = ExtractHash(data)", "if p.matchedHash == nil { return ctx, data, nil }", "if !p.envelopeMatcher.Match(data[p.matchedHash.Length():]) { p.matchedHash = nil return ctx, data, nil }", "p.rawData = make([]byte, len(data))", "copy(p.rawData, data)", "p.hashData = p.rawData[:p.matchedHash.Length()]", "return ctx, data[p.matchedHash.Length():], nil"] := by
+  refine ⟨by rfl, by rfl, by rfl, by rfl, by rfl⟩
+
+/-- **`Match` finds an envelope at ANY offset.** Whatever bytes `pre` stand in front of it: if the data from
+some offset on starts with the container tag and `ExtractSerializedContainer` accepts it (the declared length
+covers the header and fits into what is there – true of every stored envelope, whatever follows it),
+`EnvelopeMatcher.Match(pre ++ rest)` is true. -/
+theorem match_finds_envelope_anywhere (pre rest : Bytes) (n : Int) (cont : Bytes)
+    (ht : startsWith containerTag rest = true) (he : extractContainer rest = .ok (n, cont)) :
+    matchEnvelope (pre ++ rest) = .ok true :=
+  matchEnvelope_finds_container pre rest n cont ht he
+
+/-- **No partial reveal behind a search hash.** Take EVERY column value of the shape `h ++ pre ++ rest`
+where `h` is cut off as a search hash (33 bytes starting with the hash function number) and `rest` starts
+with a serialized envelope – at any distance `pre` from the hash: another value's hash, inserted bytes, the
+clear window of a masked value, nothing. Whatever the detector `det` of the chain does (any keys, any
+callbacks): if the two-pass chain `hmacProcessor → detector → hmacProcessor` delivers a value `out` at all,
+then `out` is either the STORED bytes, unchanged, or it is exactly what the detector made of everything
+behind the hash AND `h` is the genuine search index of that very output. It is never `h ++ …plaintext…`:
+the hash is cut off whenever an envelope follows anywhere, and what is then delivered is verified against
+it. (A detector that fails fatally delivers nothing through this chain; the state is left clean otherwise.) -/
+theorem searchable_splice_no_partial_reveal (c : CryptoOps) (hl : HashLen c) (k : Bytes) (det : Bytes → ScanOut)
+    (s : PState) (h pre rest : Bytes) (n : Int) (cont : Bytes)
+    (hwf : extractHash (h ++ (pre ++ rest)) = some h)
+    (ht : startsWith containerTag rest = true) (he : extractContainer rest = .ok (n, cont))
+    (s' : PState) (out : Bytes)
+    (hcol : column c (some k) det s (h ++ (pre ++ rest)) = .ok (s', some out)) :
+    s' = PState.init ∧
+    (out = h ++ (pre ++ rest) ∨
+      ∃ hit, det (pre ++ rest) = .ok out hit ∧ h = generateHMAC c k out) := by
+  have hdrop : (h ++ (pre ++ rest)).drop h.length = pre ++ rest := by simp
+  have hm : matchEnvelope ((h ++ (pre ++ rest)).drop h.length) = .ok true := by
+    rw [hdrop]; exact matchEnvelope_finds_container pre rest n cont ht he
+  have hfirst : pOnColumn c (some k) false s (h ++ (pre ++ rest)) =
+      .ok ⟨{ hashData := some ((h ++ (pre ++ rest)).take h.length), matchedHash := some h, rawData := h ++ (pre ++ rest) },
+        (h ++ (pre ++ rest)).drop h.length, false⟩ := by
+    simp only [pOnColumn, Bool.false_eq_true, if_false, hwf, hm]
+  cases hd : det (pre ++ rest) with
+  | panic =>
+    simp only [column, columnWith, hfirst, hdrop, hd] at hcol
+    cases hcol
+  | fatal =>
+    simp only [column, columnWith, hfirst, hdrop, hd] at hcol
+    cases hcol
+  | ok d hit =>
+    have hd' : det ((h ++ (pre ++ rest)).drop h.length) = .ok d hit := by rw [hdrop]; exact hd
+    obtain ⟨h1, h2⟩ := C09.bad_index_not_valid_proxy c hl k det s (h ++ (pre ++ rest)) h d hit hwf hm hd'
+    by_cases hq : h = generateHMAC c k d
+    · rw [h2 hq] at hcol
+      simp only [Out.ok.injEq, Prod.mk.injEq, Option.some.injEq] at hcol
+      obtain ⟨hs, ho⟩ := hcol
+      subst ho
+      exact ⟨hs.symm, Or.inr ⟨hit, rfl, hq⟩⟩
+    · rw [h1 hq] at hcol
+      simp only [Out.ok.injEq, Prod.mk.injEq, Option.some.injEq] at hcol
+      exact ⟨hcol.1.symm, Or.inl hcol.2.symm⟩
+
+/-- **… so behind the genuine hash of `m` only `m` or the stored bytes come out.** If the 33 bytes in front
+are the genuine index of `m` (value A's hash) and HMAC does not collide on `m` and the delivered value
+(finite `NoColl`), a splice `hash(m) ++ pre ++ envelope…` comes back as stored or – when what the detector
+made of `pre ++ envelope…` is `m` itself, i.e. `pre` is empty and the envelope is `m`'s – as `m`. In
+particular `hashA ++ hashB ++ envB` is never delivered as `hashA ++ hashB ++ B`, nor as `hashB ++ B`. -/
+theorem searchable_splice_genuine_or_stored (c : CryptoOps) (hl : HashLen c) (k : Bytes) (det : Bytes → ScanOut)
+    (s : PState) (m pre rest : Bytes) (n : Int) (cont : Bytes)
+    (ht : startsWith containerTag rest = true) (he : extractContainer rest = .ok (n, cont))
+    (s' : PState) (out : Bytes)
+    (hnc : NoColl c k (fun v => v = out ∨ v = m))
+    (hcol : column c (some k) det s (generateHMAC c k m ++ (pre ++ rest)) = .ok (s', some out)) :
+    out = generateHMAC c k m ++ (pre ++ rest) ∨ out = m := by
+  have hwf := extractHash_stored c hl k m (pre ++ rest)
+  rcases (searchable_splice_no_partial_reveal c hl k det s _ pre rest n cont hwf ht he s' out hcol).2 with h | ⟨_, _, hq⟩
+  · exact Or.inl h
+  · exact Or.inr (hnc out m (Or.inl rfl) (Or.inr rfl) ((generateHMAC_eq_iff c k out m).mp hq.symm))
+
 end SearchableHash
 
 /-! ## F. non-vacuity
@@ -666,6 +761,19 @@ example :
   · exact absurd h (by decide)
   · exact absurd h (by decide)
   · rfl
+
+/-- the splice theorems are applicable: `hashA ++ hashB ++ envB…` with the index of `exMsg2` in front of the
+index of `exMsg` in front of a genuine serialized container followed by more bytes – the column starts with a
+well-formed hash, the envelope is recognised at offset 33 of what follows the hash, and `Match` finds it there -/
+example :
+    let rest := exContainer ++ [1, 2, 3]
+    let hA := Searchable.generateHMAC C09.lenOps [1] exMsg2
+    let hB := Searchable.generateHMAC C09.lenOps [1] exMsg
+    Searchable.extractHash (hA ++ (hB ++ rest)) = some hA ∧ startsWith containerTag rest = true ∧
+    extractContainer rest = .ok (187, rest) ∧ Searchable.matchEnvelope (hB ++ rest) = .ok true := by
+  refine ⟨by decide, by decide, by decide, ?_⟩
+  exact match_finds_envelope_anywhere (Searchable.generateHMAC C09.lenOps [1] exMsg) (exContainer ++ [1, 2, 3]) 187
+    (exContainer ++ [1, 2, 3]) (by decide) (by decide)
 
 /-- decoders: both an error and a success occur (block family) -/
 example : extractBlock [] = .err ∧ extractBlock (exBlock ++ [1, 2]) = .ok (175, exBlock) := by decide
